@@ -163,7 +163,7 @@ def digest(trace):
 
 @st.composite
 def xproc_st(draw, tier):
-    n = 6 if tier == "quick" else 20
+    n = 6 if tier == "quick" else 8
     return {"cases": [draw(case_st(tier)) for _ in range(n)]}
 
 
@@ -208,7 +208,9 @@ def evaluate_xproc(plan, ctx):
                 raise Violation("digest_differs", "case %d program %d (%s / %s, seed %r): digests differ between runs: %r"
                                 % (i, j, p["config"]["lp"][0], p["config"]["np"], p["config"]["seed"], groups),
                                 bucket="digest_differs:" + (p["config"]["np"][0] if p["config"]["np"] else "none"))
-    return Result(any(nontrivial(c) for c in cases), ["cases=%d" % len(cases)])
+    warm = sum(1 for c in cases for p in c["programs"] for op in p["ops"] if op[0] == "warm_start")
+    return Result(any(nontrivial(c) for c in cases) or warm > 0,
+                  ["cases=%d" % len(cases)] + (["with_warm_start"] if warm else []))
 
 
 def minimize_xproc(plan, fails):
@@ -219,10 +221,53 @@ def minimize_xproc(plan, fails):
     return plan
 
 
+# ---- hash-seed dependence: string arms only (the only label type whose hash is randomised), tie-prone warm starts ----
+
+@st.composite
+def hash_program_st(draw):
+    nps = [None, None, None, None, "Radius", "KNearest", "LSHNearest", "Clusters", "TreeBandit"]
+    cfg = draw(gen.config_st(nps=nps, arm_kinds=("str",), min_arms=3, max_arms=6, with_binarizer=True, scale_ok=True,
+                             defaults_ok=True))
+    h = gen.History(draw, cfg, max_rows=8, grid="small")
+    h.fit(omit=True) if draw(st.integers(0, 3)) else h.partial_fit(omit=True)
+    for _ in range(draw(st.integers(2, 8))):
+        k = draw(st.sampled_from(["warm_start", "warm_start", "warm_start", "partial_fit", "fit", "add_arm", "add_arm",
+                                  "remove_arm", "predict", "predict_expectations", "cold_arms"]))
+        if k == "warm_start":
+            if h.can_warm():
+                # one or two features from a tiny grid: exact ties between arm distances are the rule
+                nf = draw(st.integers(1, 2))
+                feats = [[a, draw(st.lists(st.sampled_from([1, 2, -1]), min_size=nf, max_size=nf))] for a in h.arms]
+                h.ops.append(["warm_start", feats, draw(st.sampled_from([0.5, 1.0, 0.75, 0.25]))])
+        elif k in ("fit", "partial_fit"):
+            getattr(h, k)(omit=True)
+        elif k == "cold_arms":
+            h.cold_arms()
+        else:
+            gen.step_any(h, [k], True)
+    h.predict_expectations()
+    h.predict()
+    h.cold_arms()
+    return {"config": cfg, "ops": h.ops}
+
+
+@st.composite
+def hashseed_st(draw, tier):
+    n = 10
+    progs = [draw(hash_program_st()) for _ in range(n)]
+    return {"cases": [{"programs": [p], "order": [0] * (len(p["ops"]) + 1)} for p in progs]}
+
+
+def hashseed_strategy(tier, ctx):
+    return hashseed_st(tier)
+
+
 SUBCHECKS = [
     SubCheck("inproc", strategy, evaluate, quick=2500, thorough=40000),
     SubCheck("xproc", xproc_strategy, evaluate_xproc, quick=16, thorough=160, workers=8, quick_s=70, shrink=False,
              minimize=minimize_xproc),
+    SubCheck("hashseed", hashseed_strategy, evaluate_xproc, quick=32, thorough=320, workers=16, quick_s=70,
+             shrink=False, minimize=minimize_xproc),
 ]
 KNOWN = {}
 
